@@ -163,6 +163,52 @@ Proof.
   vm_compute. split; reflexivity.
 Qed.
 
+(* ------------------------------------------------------------------ seeded change C17-4: ALIASING.
+   generateMap parses every number element of a map[string]*number into ONE scratch cell, and
+   every entry ends up pointing at it: after decoding, all entries show the value written last.
+   The model's values are trees (no sharing is expressible), so the pinned decode is the
+   post-processing [share_cells]: in a map all of whose entries are pointers to numbers, every
+   entry gets the last value (the real order is Go's map iteration order; any order refutes). *)
+Definition is_num_ptr (v : gval) : bool :=
+  match v with VPtr (VInt _) | VPtr (VFloat _) => true | _ => false end.
+
+Fixpoint share_cells (v : gval) : gval :=
+  match v with
+  | VPtr x => VPtr (share_cells x)
+  | VSlice l => VSlice (map share_cells l)
+  | VStruct l => VStruct (map share_cells l)
+  | VMap m =>
+    let m' := map (fun kv => (fst kv, share_cells (snd kv))) m in
+    if forallb (fun kv => is_num_ptr (snd kv)) m'
+    then VMap (match rev m' with
+               | (_, lastv) :: _ => map (fun kv => (fst kv, lastv)) m'
+               | [] => m'
+               end)
+    else VMap m'
+  | _ => v
+  end.
+
+Definition unmarshal_pin4 (fs : fields) (d : option jv) : result gval := rmap share_cells (unmarshal fixed jcfg fs d).
+
+Definition t_limits : fields := FCons "limits" None (TMap (TPtr (TPrim (KInt W0)))) FNil.
+Definition j_limits : option jv := Some (JObj [("limits", JObj [("a", JNum "1"); ("b", JNum "2")])]).
+
+(* inside the plain-tag family, both accept, values differ: the "agrees with encoding/json" half fails ... *)
+Theorem shared_cell_refuted :
+  plain_fields t_limits = true /\ std_ok t_limits j_limits = true /\
+  unmarshal_pin4 t_limits j_limits = Ok (VStruct [VMap [("a", VPtr (VInt 2)); ("b", VPtr (VInt 2))]]) /\
+  stdjson_decode t_limits j_limits = Ok (VStruct [VMap [("a", VPtr (VInt 1)); ("b", VPtr (VInt 2))]]) /\
+  unmarshal fixed jcfg t_limits j_limits = stdjson_decode t_limits j_limits.
+Proof. vm_compute. repeat split. Qed.
+
+(* ... and with Go's map order deciding which value survives, so does format independence: the same
+   document, entries visited in the other order *)
+Theorem shared_cell_order_refuted :
+  unmarshal_pin4 t_limits (Some (JObj [("limits", JObj [("b", JNum "2"); ("a", JNum "1")])]))
+  = Ok (VStruct [VMap [("b", VPtr (VInt 1)); ("a", VPtr (VInt 1))]]).
+Proof. vm_compute. reflexivity. Qed.
+
+Print Assumptions shared_cell_refuted.
 Print Assumptions slice_of_pointers_refuted.
 Print Assumptions anonymous_slice_refuted.
 Print Assumptions yaml_float32_digits_refuted.
